@@ -5,11 +5,15 @@ MC_LAYER = {"module": "MC_RustFFT.tla", "cfg": "MC_RustFFT.cfg", "cfg_quick": "M
 MC_CALL = {"module": "MC_CallProtocol.tla", "cfg": "MC_CallProtocol.cfg", "timeout": 600}
 MC_PLAN = {"module": "MC_Planners.tla", "cfg": "MC_Planners.cfg", "cfg_quick": "MC_Planners_quick.cfg", "timeout": 3000}
 
+MC_SCR = {"module": "MC_Scratch.tla", "cfg": "MC_Scratch.cfg", "cfg_quick": "MC_Scratch_quick.cfg", "args": ["-maxSetSize", "30000000"], "timeout": 1200}
+MC_EXEC = {"module": "MC_Exec.tla", "cfg": "MC_Exec.cfg", "cfg_quick": "MC_Exec_quick.cfg", "timeout": 2400, "xss": "1g"}
+MC_THR = {"module": "Threads.tla", "cfg": "MC_Threads3.cfg", "timeout": 600}
+
 NT_PLAN = "a case is non-trivial when n >= 2 (the plan is not the trivial length-0/1 transform); distinct tuples are counted by the harness"
 
 PROPS = {
     "C01": {
-        "driver": "c01", "level": "model_checking", "mc": [MC_LAYER],
+        "driver": "c01", "level": "model_checking", "mc": [MC_LAYER, MC_EXEC],
         "rule": "every (planner kind, f32/f64, n, direction) for n = 1..N plus structured lengths is planned on the real library; each is called "
                 "through all four entry points on a dense vector (error against the double-double reference DFT, judged by TLC against Tol) and on unit "
                 "impulses (whole basis for small n; TLC checks the integer phase identity phase[k] = -+j*k mod n); " + NT_PLAN,
@@ -20,7 +24,7 @@ PROPS = {
                 "TLC evaluates err <= 16 eps log2(2n) (fixed-point log rounded up) on every completed call; " + NT_PLAN,
     },
     "C03": {
-        "driver": "c03", "level": "exploration",
+        "driver": "c03", "mc": [MC_SCR, MC_CALL], "level": "exploration",
         "rule": "every (planner kind, f32/f64, n, direction, entry point, chunk count, alignment) call runs with each caller buffer flush against a PROT_NONE "
                 "page (end- and start-aligned), immutable inputs read-only, scratch exactly as advertised, plus the ill-shaped classes; any fault/abort is a Crash "
                 "event for which the specification has no transition; every case counts as non-trivial (each is a distinct memory layout)",
@@ -37,7 +41,7 @@ PROPS = {
                 "operation counts of the portable planner through a counting element type for every n (two inputs each); " + NT_PLAN,
     },
     "C06": {
-        "driver": "c06", "level": "model_checking", "mc": [MC_LAYER],
+        "driver": "c06", "level": "model_checking", "mc": [MC_LAYER, MC_EXEC],
         "rule": "every (planner kind, f32/f64, n): both directions planned on one planner in either order, forward-then-inverse and inverse-then-forward "
                 "round trips against n*x, and inverse(x) against conj(forward(conj x)); " + NT_PLAN,
     },
@@ -47,7 +51,7 @@ PROPS = {
                 "(isolation); non-trivial when k >= 2",
     },
     "C08": {
-        "driver": "c08", "level": "model_checking", "mc": [MC_LAYER],
+        "driver": "c08", "level": "model_checking", "mc": [MC_LAYER, MC_SCR],
         "rule": "every (planner kind, f32/f64, n, entry point): reference run with zeroed exact scratch, then runs varying scratch length {adv,+1,+17,x2} and "
                 "initial scratch/output contents {0,NaN,+Inf,-Inf,huge}; output bits compared (hash equality decided by TLC); non-trivial when the variant "
                 "differs from the reference run",
@@ -65,13 +69,14 @@ PROPS = {
                 "(hash equality decided by TLC); non-trivial = distinct history prefixes of length >= 2",
     },
     "C11": {
-        "driver": "c11", "level": "model_checking", "mc": [MC_LAYER],
+        "gen": {"module": "Threads.tla", "cfg": "MC_Threads.cfg", "timeout": 300},
+        "driver": "c11", "level": "model_checking", "mc": [MC_LAYER, MC_THR],
         "rule": "shared instances of every planner kind x f32/f64 over 14 lengths covering every wrapper algorithm: forced two-thread schedules through the "
                 "chunk-boundary hook (context-bounded, <= 2 preemptions) and 16 free-running threads x R rounds with mixed entry points and chunk counts; every "
                 "concurrent output hash must equal the sequential reference recorded in the same trace (decided by TLC); every case is non-trivial",
     },
     "C12": {
-        "driver": "c12", "level": "model_checking",
+        "driver": "c12", "mc": [MC_SCR, MC_EXEC], "level": "model_checking",
         "gen": {"module": "MC_Ctor.tla", "cfg": "MC_Ctor.cfg", "cfg_quick": "MC_Ctor_quick.cfg", "args": ["-maxSetSize", "20000000"], "timeout": 2400},
         "rule": "expression trees of depth <= 2 over the public constructors (Dft, Butterfly1..32, Radix4/Radix3 new and new_with_base, MixedRadix(Small), "
                 "GoodThomasAlgorithm(Small), RadersAlgorithm, BluesteinsAlgorithm, planner-produced leaves) enumerated by TLC from MC_Ctor.tla under the "
